@@ -3,6 +3,7 @@ package c19
 import (
 	"bytes"
 	"context"
+	"crypto/sha256"
 	"fmt"
 	"os"
 	"runtime"
@@ -184,9 +185,14 @@ func (d *DB) Close() error {
 
 // FillBlockWrite performs the calls a block writer makes on the block write database.
 func (d *DB) FillBlockWrite(bw isaac.BlockWriteDatabase, b *Block) error {
-	if d.WriteCache > 0 {
+	wc := d.WriteCache
+	if b.WCache != 0 {
+		wc = b.WCache
+	}
+
+	if wc > 0 {
 		if i, ok := bw.(isaac.StateCacheSetter); ok {
-			i.SetStateCache(util.NewLFUGCache[string, [2]interface{}](d.WriteCache))
+			i.SetStateCache(util.NewLFUGCache[string, [2]interface{}](wc))
 		}
 	}
 
@@ -284,6 +290,7 @@ type Obs struct {
 	Pol  Ref               `json:"pol"`
 	Iso  [][]interface{}   `json:"iso"`
 	Kno  [][]int           `json:"kno"`
+	Fl   [][]int           `json:"fl,omitempty"` // per block with filler states: h, g, filler states found by State, by StateBytes, in-state operations found
 	Errs []string          `json:"errs,omitempty"`
 	Raw  map[string]string `json:"-"` // C20: raw bytes per read, "enchint|meta|body"
 }
@@ -341,6 +348,16 @@ func DiffObs(before, after *Obs) []ObsDiff {
 	add("LastNetworkPolicy", "object", ref(before.Pol), ref(after.Pol))
 	add("ExistsInStateOperation", "set", fmt.Sprint(before.Iso), fmt.Sprint(after.Iso))
 	add("ExistsKnownOperation", "set", fmt.Sprint(before.Kno), fmt.Sprint(after.Kno))
+
+	for i := range before.Fl {
+		if i < len(after.Fl) {
+			b, a := before.Fl[i], after.Fl[i]
+			name := fmt.Sprintf("[filler](%d.%d)", b[0], b[1])
+			add("State"+name, "found", fmt.Sprint(b[2]), fmt.Sprint(a[2]))
+			add("StateBytes"+name, "found", fmt.Sprint(b[3]), fmt.Sprint(a[3]))
+			add("ExistsInStateOperation"+name, "found", fmt.Sprint(b[4]), fmt.Sprint(a[4]))
+		}
+	}
 
 	var rk []string
 	for k := range before.Raw {
@@ -402,6 +419,73 @@ func (d *DB) Observe(r Reader, keys []string, maxLen int, wantRaw bool) (o *Obs)
 	ReadRound(func() { o = d.observe(r, keys, maxLen, wantRaw) })
 
 	return o
+}
+
+// ObserveAll is Observe plus EVERY record of the blocks that carry filler states (block size
+// classes of spec/Database.tla): State and StateBytes of every filler key and its in-state operation.
+func (d *DB) ObserveAll(r Reader, keys []string, maxLen int, wantRaw bool) (o *Obs) {
+	ReadRound(func() {
+		o = d.observe(r, keys, maxLen, wantRaw)
+		d.observeFillers(r, o)
+	})
+
+	return o
+}
+
+func (d *DB) observeFillers(r Reader, o *Obs) {
+	o.Fl = [][]int{}
+
+	for _, b := range d.Gen.AllBlocks() {
+		if len(b.ExtraSts) < 1 {
+			continue
+		}
+
+		row := []int{b.H, b.G, 0, 0, 0}
+		hs := sha256.New()
+
+		for _, fst := range b.ExtraSts {
+			switch st, found, err := r.State(fst.Key()); {
+			case err != nil:
+				o.Errs = append(o.Errs, fmt.Sprintf("State(%s): %v", fst.Key(), err))
+			case found && st.Hash().Equal(fst.Hash()):
+				row[2]++
+			case found:
+				o.Errs = append(o.Errs, fmt.Sprintf("State(%s): another state", fst.Key()))
+			}
+
+			switch eh, meta, body, found, err := r.StateBytes(fst.Key()); {
+			case err != nil:
+				o.Errs = append(o.Errs, fmt.Sprintf("StateBytes(%s): %v", fst.Key(), err))
+			case found:
+				var bst base.State
+				if err := isaacdatabase.DecodeFrame(d.Env.Encs, eh, body, &bst); err != nil || bst == nil ||
+					!bst.Hash().Equal(fst.Hash()) || !bytes.Equal(meta, fst.Hash().Bytes()) {
+					o.Errs = append(o.Errs, fmt.Sprintf("StateBytes(%s): not the stored state (%v)", fst.Key(), err))
+				} else {
+					row[3]++
+				}
+
+				if o.Raw != nil {
+					_, _ = hs.Write([]byte(rawKey(eh, meta, body)))
+				}
+			}
+
+			for _, op := range fst.Operations() {
+				switch found, err := r.ExistsInStateOperation(op); {
+				case err != nil:
+					o.Errs = append(o.Errs, fmt.Sprintf("ExistsInStateOperation(filler): %v", err))
+				case found:
+					row[4]++
+				}
+			}
+		}
+
+		if o.Raw != nil && row[3] > 0 {
+			o.Raw[fmt.Sprintf("StateBytes[filler](%d.%d)", b.H, b.G)] = fmt.Sprintf("sha256|%x|", hs.Sum(nil))
+		}
+
+		o.Fl = append(o.Fl, row)
+	}
 }
 
 func (d *DB) observe(r Reader, keys []string, maxLen int, wantRaw bool) *Obs {
